@@ -17,7 +17,7 @@ HEAP_BIG = {"JAVA_TOOL_OPTIONS": "-Xss64m -Xmx6g"}
 HEAP_SMALL = {"JAVA_TOOL_OPTIONS": "-Xss64m -Xmx2g"}
 HEAP_TRACE = {"JAVA_TOOL_OPTIONS": "-Xss64m -Xmx2g -Dtlc2.tool.queue.IStateQueue=StateDeque"}
 
-ENV_OPS = {"Arrive", "Disconnect", "CloseListener", "StopBegin", "Stop2Begin", "ThAdd", "ThRefuse", "ThCheck", "AllowCheck", "Refuse", "Handshake",
+ENV_OPS = {"Arrive", "Disconnect", "CloseListener", "StopBegin", "Stop2Begin", "CancelParent", "ThAdd", "ThRefuse", "ThCheck", "AllowCheck", "Refuse", "Handshake",
            "Handle", "ThDone", "AddPeer"}
 FAIL_OUT = {"lost", "rejected", "dropsub", "dropshut", "droppeer"}
 
@@ -70,7 +70,9 @@ M_DEVS = [("Limits_conn_cap.cfg", "PeerCaps"),             # the code as it is: 
           ("Limits_rpc_dev_leak.cfg", "NoSlotLeak"),
           ("Limits_rpc_dev_drop.cfg", "BackPressureNotDrop"),
           ("Limits_tg_dev.cfg", None),
-          ("Limits_tg_dev2.cfg", "StopWaits")]
+          ("Limits_tg_dev2.cfg", "StopWaits"),
+          ("Limits_tg_dev3.cfg", "TgAccounting"),
+          ("Limits_tg_dev3live.cfg", "deadlock")]
 
 
 def leg_m(wd, tier):
@@ -353,14 +355,19 @@ def leg_r_tg(wd, tier, binary, verdict, targets=None):
     r = vlib.run_tlc(wd, "MCLimits", "Limits_tg_edges.cfg", workers=1, timeout=600, env=HEAP_SMALL)
     vlib.tlc_must_pass(r, "Limits TG edge export")
     states, inits, macro = macro_graph(r.edges)
-    need_ops(r.edges, {"ThAdd", "ThRefuse", "ThDone", "StopBegin", "StopWait", "StopReturn", "Stop2Begin", "Stop2Return"}, "TG")
+    need_ops(r.edges, {"ThAdd", "ThRefuse", "ThDone", "StopBegin", "StopWait", "StopReturn", "Stop2Begin", "Stop2Return", "CancelParent"}, "TG")
     rng = random.Random(vlib.seed() + 2)
     paths = vlib.path_cover(macro, max_paths=None, rng=rng, max_len=30)
     total = len(paths)
     if not any(e["act"]["op"] == "Stop2Begin" and tg_obs(e["to"])["live"] for p in paths for e in p):
         raise vlib.Infra("no cover path calls Stop a second time while a member is live")
+    ctx_threads = sorted({e["act"]["p"] for e in r.edges if e["act"]["op"] == "CancelParent"})
+    # AddContext with a parent that is ALREADY cancelled, and with one cancelled while the thread is a member
+    if not any(e["act"]["op"] in ("ThAdd", "ThCheck") and e["from"]["par"][e["act"]["p"]] == "cancelled" for p in paths for e in p) or \
+       not any(e["act"]["op"] == "CancelParent" and e["from"]["th"][e["act"]["p"]] == "live" for p in paths for e in p):
+        raise vlib.Infra("no cover path joins with an already cancelled parent context / cancels the parent of a live member")
     inp = os.path.join(wd, "replay_tg_in.json")
-    json.dump({"threads": sorted(macro[0]["from"]["th"]), "targets": targets or [],
+    json.dump({"threads": sorted(macro[0]["from"]["th"]), "ctxThreads": ctx_threads, "targets": targets or [],
                "paths": [[{"act": e["act"], "obs": tg_obs(e["to"])} for e in p] for p in paths]}, open(inp, "w"))
     res = vlib.go_run(binary, "TestReplayTG", wd, env={"VERIF_IN": inp}, timeout=900)
     if res["counts"].get("infra"):
@@ -456,7 +463,7 @@ def leg_t(wd, tier, binary, verdict, race_binary=None):
            "VERIF_TG_RUNS": 16 if tier == "quick" else 200, "VERIF_WALLET_RUNS": 3 if tier == "quick" else 9,
            "VERIF_SHARDS": 2 if tier == "quick" else 10, "VERIF_PARALLEL": 6}
     res = vlib.go_run(binary, "TestDriver", wd, env=env, timeout=1500)
-    if res["counts"].get("infra"):
+    if res["counts"].get("infra") and not res["mismatches"]:
         raise vlib.Infra("driver could not set up %d runs: %s" % (res["counts"]["infra"], res.get("notes")))
     verdict.add_all(res["mismatches"])
     c = res["counts"]
@@ -663,6 +670,8 @@ def selftest():
         x = vlib.run_tlc(wd, "MCLimits", cfg, workers=4, timeout=600, env=HEAP_SMALL)
         if x.violated is None and x.error and "Temporal propert" in x.error:
             x.violated = "temporal"
+        if x.violated is None and x.error and "Deadlock reached" in x.error:
+            x.violated = "deadlock"        # a Stop that can never return
         good_ = x.exit != 0 and x.violated is not None and (want is None or x.violated == want)
         log("selftest 3 (%s: deviation breaks %s in TLC): %s" % (cfg, x.error if x.violated == "temporal" else x.violated, "ok" if good_ else "FAILED"))
         ok &= good_
